@@ -75,8 +75,10 @@ def check_chunks(ctx, cfg, key):
         dets.append(det)
         first = prove(("==", ps[0][0]), a.poly_facts(fs))
         rem = prove((">=", nlen - ps[1][2] - 1), a.poly_facts(fs))
-        if st != PROVED or not first or not rem:
-            bad.append("%s; the array piece starts at the slice's address: %s; remainder count %r < N: %s" % (det, first, ps[1][2], rem))
+        # element counts (bytes say nothing for zero-sized elements): chunks * N + remainder == len
+        cnt = prove(("==", ps[0][2] * nlen + ps[1][2] - L), a.poly_facts(fs))
+        if st != PROVED or not first or not rem or not cnt:
+            bad.append("%s; the array piece starts at the slice's address: %s; remainder count %r < N: %s; chunks * N + remainder == len in elements: %s" % (det, first, ps[1][2], rem, cnt))
     panics = [c for c in a.calls if c.fn.startswith("core::panicking::")]
     okp = bool(panics) and all(a.prove(c.facts, "Eq", nlen, Poly.const(0)) and a.prove(c.facts, "Ne", L, Poly.const(0)) for c in panics)
     ok = kinds_ok and not bad and n_nonzero >= 1 and n_zero >= 1
@@ -104,7 +106,11 @@ def check_flatten(ctx, cfg, key):
         st, det = tiling(a, [(p[0], p[1])], total, r["facts"])
         if st != PROVED:
             bad.append(det)
-    ctx.ob(rule, key, bool(a.returns) and not bad, "; ".join(bad) if bad else "the flat slice starts at the source's address and covers exactly its %r bytes" % (total,), at=b["at"], cfg=cfg)
+        # element count (bytes say nothing for zero-sized elements): exactly len * N elements
+        nlen = a.tenv.length({"k": "param", "n": b["generics"][1]["n"]})
+        if not prove(("==", p[2] - Poly.atom(("len", ("arg", 1))) * nlen), a.poly_facts(r["facts"])):
+            bad.append("the flat slice has %r elements under %s, not len * N" % (p[2], fstr(r["facts"])))
+    ctx.ob(rule, key, bool(a.returns) and not bad, "; ".join(bad) if bad else "the flat slice starts at the source's address, covers exactly its %r bytes and has exactly len * N elements" % (total,), at=b["at"], cfg=cfg)
     return 1
 
 
